@@ -542,41 +542,72 @@ def _merge_list_default(case, obs, fail):
     return True
 
 
-def _has_union_str_leaf(tree):
+def _leaf_default_value(f):
+    d = f["f"]["default"]
+    return d["v"] if d["kind"] == "value" else None
+
+
+def _has_converted_default_leaf(tree, kinds):
+    """does the tree (any depth) hold a leaf whose OWN default is rewritten on the way through argparse/postprocess:
+    'union' = a str default of a Union-typed leaf; 'literal' = a Literal default shadowed by a later value with the same str()"""
     for f in tree["fields"]:
         if f["kind"] == "leaf":
             t = f["f"]["ty"]
             inner = t["inner"] if t["k"] == "opt" else t
-            d = f["f"]["default"]
-            if inner["k"] == "union" and d["kind"] == "value" and d["v"]["t"] == "str":
+            v = _leaf_default_value(f)
+            if v is None:
+                continue
+            if "union" in kinds and inner["k"] == "union" and v["t"] == "str":
                 return True
+            if "literal" in kinds and inner["k"] == "literal" and G.literal_expressible(inner, v) != v:
+                return True
+        elif _has_converted_default_leaf(f["tree"], kinds):
+            return True
     return False
 
 
-def _union_str_default(case, obs, fail):
-    """a Union-typed leaf whose default is a str that an earlier Union member's parser accepts ('0' for
-    Union[float,str]): argparse converts string defaults through type=, so the default comes back converted — and an
-    Optional member holding such a leaf then looks 'touched' and is built instead of staying None."""
-    if fail.get("clause") != "equals-default":
-        return False
-    r = next(x for x in case["case"]["regs"] if x["dest"] == fail["dest"])
-    diffs = differing_leaves(fail["got"], fail["ref"])
-    if not diffs:
-        return False
-    for path, got, ref in diffs:
-        f = find_field(r["tree"], path)
-        if not f:
+def _explained(r, path, got, ref):
+    """why may this leaf / member legitimately-known differ? 'union' | 'literal' | None"""
+    f = find_field(r["tree"], path)
+    if not f:
+        return None
+    if f["kind"] == "child":
+        # an Optional member holding such a leaf looks 'touched' and is built instead of staying None
+        if (f["optional"] and isinstance(got, dict) and got.get("t") == "inst" and isinstance(ref, dict) and ref.get("t") == "none"):
+            if _has_converted_default_leaf(f["tree"], {"union"}):
+                return "union"
+            if _has_converted_default_leaf(f["tree"], {"literal"}):
+                return "literal"
+        return None
+    t = f["f"]["ty"]
+    inner = t["inner"] if t["k"] == "opt" else t
+    if (inner["k"] == "union" and isinstance(ref, dict) and ref.get("t") == "str" and isinstance(got, dict)
+            and got.get("t") in ("int", "float", "bool")):
+        return "union"
+    if inner["k"] == "literal" and isinstance(ref, dict) and G.literal_expressible(inner, ref) != ref and got == G.literal_expressible(inner, ref):
+        return "literal"
+    return None
+
+
+def _converted_default(kind):
+    def pred(case, obs, fail):
+        if fail.get("clause") != "equals-default":
             return False
-        if f["kind"] == "child":
-            if not (f["optional"] and _has_union_str_leaf(f["tree"]) and isinstance(got, dict) and got.get("t") == "inst"
-                    and isinstance(ref, dict) and ref.get("t") == "none"):
-                return False
-            continue
-        t = f["f"]["ty"]
-        inner = t["inner"] if t["k"] == "opt" else t
-        if not (inner["k"] == "union" and isinstance(ref, dict) and ref.get("t") == "str" and isinstance(got, dict) and got.get("t") in ("int", "float", "bool")):
+        r = next(x for x in case["case"]["regs"] if x["dest"] == fail["dest"])
+        diffs = differing_leaves(fail["got"], fail["ref"])
+        if not diffs:
             return False
-    return True
+        why = [_explained(r, path, got, ref) for path, got, ref in diffs]
+        return all(w is not None for w in why) and kind in why
+    return pred
+
+
+# a Union-typed leaf whose default is a str that an earlier Union member's parser accepts ('0' for Union[float,str]):
+# argparse converts string defaults through type=, so the default comes back converted
+_union_str_default = _converted_default("union")
+# a Literal leaf whose default has the same str() as a LATER value of the Literal (`Literal["0", 0] = "0"`): the default is
+# looked up by name in {str(v): v} (field_wrapper.py:891), which keeps the last value: "0" comes back as the int 0
+_literal_collision = _converted_default("literal")
 
 
 def _merge_optional_list_default(case, obs, fail):
@@ -601,4 +632,5 @@ def skip_model(case, obs):
     return any(o.get("o") == "raise" and o.get("exc") == "ConflictResolutionError" for o in obs.get("outs", []))
 
 
-FINDINGS = { "C01-union-str-default-converted": _union_str_default}
+FINDINGS = {"C01-union-str-default-converted": _union_str_default,
+            "C01-literal-name-collision": _literal_collision}
